@@ -361,3 +361,8 @@ def run(rep, programs):  # noqa: F811
     # or the counters keep what a reused buffer held
     from props import c07
     c07.r_nowrite_none(rep, programs["core"])
+
+
+EXPLANATION = EXPLANATION + (
+    ' R-NOWRITE-NONE (shared with C07): only Init::None hands tree_init = None to Trees::new, so allocate-all and free-all both write every tree counter.'
+)
